@@ -42,6 +42,9 @@ def engine_cases(
         elif kind == "file" and foreign and chance(draw, 20):
             # a stale token file is there when the token is opened: [amount, removed before the watcher is registered]
             tok["stale"] = [draw(st.integers(1, tok["total"])), draw(st.booleans())]
+        elif kind == "file" and foreign and chance(draw, 8):
+            # a scheduler died between the creation of a token file and the write of its content
+            tok["stale_empty"] = True
         toks.append(tok)
     n = draw(st.integers(1, max_jobs))
     jobs = []
